@@ -6,7 +6,7 @@ spec = importlib.util.spec_from_file_location("results", S + "/results.py")
 mod = importlib.util.module_from_spec(spec); spec.loader.exec_module(mod)
 R = mod.R
 rows = []
-for d in sorted(glob.glob(S + '/C*-*')):
+for d in sorted(glob.glob(S + "/C*-*")):
     sid = os.path.basename(d)
     am = json.load(open(d + '/agent_meta.json')) if os.path.exists(d + '/agent_meta.json') else {}
     conf = json.load(open(d + '/confirm.json')) if os.path.exists(d + '/confirm.json') else {}
